@@ -41,7 +41,7 @@ def oracle(op, out):
     if out.startswith("HARNESS-TIMEOUT") or out == "<missing>":
         return None
     cfg, kv = kvs(op), kvs(out)
-    fr = [f for f in kv.get("frames", "-").split(",") if f and f != "-"]
+    fr = [f for f in kv.get("frames", "-").replace("+", ",").split(",") if f and f != "-"]
     notes = kv.get("notes", "-")
     ci = [i for i, f in enumerate(fr) if f in ("C", "ZC")]
     if ci and ci[0] != 0:
@@ -75,6 +75,42 @@ def oracle(op, out):
                     return "encoder closed while an Encode was in flight", {"kind": "close-during-encode", "rwq": cfg.get("rwq")}
                 closed = True
     return None
+
+
+def model_ops(op, out):
+    """label sequences for the Lean driver that replay what the implementation did, with the expected answers"""
+    cfg, kv = kvs(op), kvs(out)
+    res = []
+    msgs = [f for f in kv.get("frames", "-").split(",") if f and f != "-"]
+    if msgs and all("+" not in m for m in msgs):
+        labels = ["add"] + ["reply" if m.lstrip("Z") == "C" else "push" for m in msgs]
+        want = "frames=" + ",".join(("Z" if m.startswith("Z") else "") + ("C" if m.lstrip("Z") == "C" else "P") for m in msgs)
+        res.append((f"c dict={cfg.get('dict')} " + " ".join(labels), want))
+    el = [e for e in kv.get("enc", "-").split(",") if e in ("enc+", "enc-", "close")]
+    if cfg.get("dict") == "1" and el.count("close") == 1 and el.count("enc+") == el.count("enc-"):
+        rwq = cfg.get("rwq") == "1"
+        labels = []
+        ci = el.index("close")
+        late = sum(1 for e in el[ci:] if e == "enc+")      # Encodes that begin after Close loaded before it
+        if late > 1:
+            return res
+        for i, e in enumerate(el):
+            if e == "enc+":
+                if rwq:
+                    labels += (["dBegin"] if i > ci else ["dLoad", "dBegin"])
+                else:
+                    labels += ["qLock", "qBegin"]
+            elif e == "enc-":
+                labels.append("dEnd" if rwq else "qEnd")
+            else:
+                depth = el[:i].count("enc+") - el[:i].count("enc-")
+                if rwq and late and depth == 0:
+                    labels.append("dLoad")
+                labels += ["closeWriter", "closeEncoder"]
+        bad = oracle(op, out)
+        viol = 1 if bad and bad[1].get("kind") in ("close-during-encode", "encode-after-close") else 0
+        res.append((f"e rwq={cfg.get('rwq')} " + " ".join(labels), f"violated={viol}"))
+    return res
 
 
 def run(ctx):
@@ -148,7 +184,27 @@ def run(ctx):
         bad = oracle(op, out)
         if bad:
             ctx.violation("property", bad[0], signature=bad[1], replay={"ops": [op], "impl": [out]})
-    ctx.traces_validated = len(seen)
+    # trace validation against the Lean transition systems: every observed frame sequence / encoder
+    # call log must be a run of the model with the same encoded/raw pattern and the same verdict
+    mops = []
+    for op, out in zip(ops, impl):
+        if not (out.startswith("HARNESS-TIMEOUT") or out == "<missing>"):
+            for line, want in model_ops(op, out):
+                mops.append((line, want, op, out))
+    nval = 0
+    if mops:
+        mout = ctx.lean_run([m[0] for m in mops])
+        if mout is None:
+            proofs_ok = False
+        else:
+            for (line, want, op, out), got in zip(mops, mout):
+                nval += 1
+                if want not in got:
+                    ctx.violation("correspondence", f"model does not reproduce the observed trace: `{line}` gives `{got}`, "
+                                  f"implementation showed `{want}`", signature={"kind": "model-trace", "lts": line[0]},
+                                  replay={"ops": [op], "impl": [out], "model_op": line, "model": got}, no_input=True)
+    ctx.count("model-validated-traces", nval)
+    ctx.traces_validated = nval
     for f in known:
         if f["id"] not in [k.get("id") for k in ctx.known_hits]:
             ctx.notes.append(f"finding {f['id']} did not reproduce on this tree")
